@@ -180,6 +180,8 @@ class Tree:
                 have = local_bindings(f.node)
                 if len(have) != len(want) or have == want or [k for _, k in have] != [k for _, k in want]:
                     continue
+                if {h[0] for h in have} == {w[0] for w in want}:
+                    continue  # same names in another order (reordered independent statements): nothing to rename
                 mapping = {h[0]: w[0] for h, w in zip(have, want) if h[0] != w[0]}
                 a = f.node.args
                 pnames = {x.arg for x in a.posonlyargs + a.args + a.kwonlyargs}
